@@ -1,6 +1,6 @@
 # -*- coding: utf-8 -*-
 
-from typing import Any, Dict, List, Mapping, Optional, Sequence, Set, Tuple
+from typing import Any, Dict, List, Mapping, Optional, Sequence, Set
 
 from ..exc import CoercionError, ValidationError, VariablesCoercionError
 from ..lang.ast import (
@@ -65,49 +65,46 @@ def _nesting_levels(
 
     The selection is measured level by level (there is no recursion per
     level, so the depth which can be measured is not bounded by the
-    interpreter's stack); identical selection sets met at the same level are
-    measured once. ``budget`` bounds the number of levels and the nesting of
-    fragment expansions (fragment cycles would otherwise never end):
-    :class:`ExpansionBudgetExhausted` is raised when it is used up.
+    interpreter's stack). The depth is a maximum over the selected paths, so
+    the sub-selections of all the fields of a level are measured together,
+    every selection node once per level: the work per level is bounded by the
+    size of the document whatever the number of paths. ``budget`` bounds the
+    number of levels and the nesting of fragment expansions (fragment cycles
+    would otherwise never end): :class:`ExpansionBudgetExhausted` is raised
+    when it is used up.
     """
     levels = 0
-    frontier = [selections]
+    level_selections = list(selections)  # type: List[Selection]
 
-    while frontier:
+    while level_selections:
         if budget <= 0:
             raise ExpansionBudgetExhausted()
 
-        seen = set()  # type: Set[Tuple[int, ...]]
-        next_frontier = []  # type: List[Sequence[Selection]]
-        found = False
+        collected = collect_fields_untyped(
+            level_selections,
+            fragments,
+            variables,
+            skip_selection=_skip_unless_unknown,
+            _budget=budget,
+        )
 
-        for level_selections in frontier:
-            collected = collect_fields_untyped(
-                level_selections,
-                fragments,
-                variables,
-                skip_selection=_skip_unless_unknown,
-                _budget=budget,
-            )
-            for fields in collected.values():
-                found = True
-                subselections = [
-                    selection
-                    for field in fields
-                    if field.selection_set is not None
-                    for selection in field.selection_set.selections
-                ]
-                key = tuple(id(selection) for selection in subselections)
-                if subselections and key not in seen:
-                    seen.add(key)
-                    next_frontier.append(subselections)
-
-        if not found:
+        if not collected:
             break
+
+        seen = set()  # type: Set[int]
+        next_selections = []  # type: List[Selection]
+
+        for fields in collected.values():
+            for field in fields:
+                if field.selection_set is not None:
+                    for selection in field.selection_set.selections:
+                        if id(selection) not in seen:
+                            seen.add(id(selection))
+                            next_selections.append(selection)
 
         levels += 1
         budget -= 1
-        frontier = next_frontier
+        level_selections = next_selections
 
     return levels
 
